@@ -63,24 +63,32 @@ def determinism(names, seeds=4, runs=60):
 def sensitivity(patterns):
     mdir = os.path.join(E.VERIF, "selftest", "mutants")
     ok = True
+    jobs = []
     for fn in sorted(os.listdir(mdir)):
         if not fn.endswith(".patch"):
             continue
         if patterns and not any(p in fn for p in patterns):
             continue
-        name = fn.split("_")[0].upper()
-        runs = os.environ.get("VERIF_RUNS")
-        env = dict(os.environ)
-        p = subprocess.run([os.path.join(E.VERIF, "tools", "with_mutant.sh"), os.path.join(mdir, fn),
-                            os.path.join(E.VERIF, "vcheck"), name, "quick"], env=env, capture_output=True,
-                           text=True, timeout=3600)
-        hit = [l for l in p.stdout.splitlines() if l.startswith("VIOLATION property=")]
-        status = "caught" if (p.returncode == 1 and hit) else "MISSED (rc=%d)" % p.returncode
-        if status != "caught":
-            ok = False
-            print(p.stdout[-1500:], p.stderr[-1500:])
-        print("sensitivity %-55s %s %s" % (fn, status, hit[0] if hit else ""))
-        sys.stdout.flush()
+        jobs.append((fn, fn.split("_")[0].upper()))
+    par = int(os.environ.get("VERIF_SELFTEST_PAR", "3"))
+    env = dict(os.environ)
+    env.setdefault("VERIF_WORKERS", str(max(2, 16 // par)))
+
+    def one(job):
+        fn, name = job
+        return subprocess.run([os.path.join(E.VERIF, "tools", "with_mutant.sh"), os.path.join(mdir, fn),
+                               os.path.join(E.VERIF, "vcheck"), name, "quick"], env=env, capture_output=True,
+                              text=True, timeout=7200)
+    import concurrent.futures as cf
+    with cf.ThreadPoolExecutor(max_workers=par) as ex:
+        for (fn, name), p in zip(jobs, ex.map(one, jobs)):
+            hit = [l for l in p.stdout.splitlines() if l.startswith("VIOLATION property=")]
+            status = "caught" if (p.returncode == 1 and hit) else "MISSED (rc=%d)" % p.returncode
+            if status != "caught":
+                ok = False
+                print(p.stdout[-1500:], p.stderr[-1500:])
+            print("sensitivity %-55s %s %s" % (fn, status, hit[0] if hit else ""))
+            sys.stdout.flush()
     return 0 if ok else 1
 
 
@@ -137,6 +145,7 @@ def seeded(patterns):
     reported by the check of its property within the quick budget."""
     sdir = os.path.join(E.VERIF, "seeded")
     ok = True
+    jobs = []
     for name in sorted(os.listdir(sdir)):
         if patterns and not any(p in name for p in patterns):
             continue
@@ -146,14 +155,25 @@ def seeded(patterns):
         meta = json.load(open(os.path.join(d, "meta.json")))
         # "check": the check that reports it where that is not the property's own (see check_result in the meta file)
         prop = meta.get("check") or meta.get("property", name[:3])
-        p = subprocess.run([os.path.join(E.VERIF, "tools", "with_mutant.sh"), os.path.join(d, "patch.diff"),
-                            os.path.join(E.VERIF, "vcheck"), prop, "quick"], capture_output=True, text=True, timeout=3600)
-        hit = [l for l in p.stdout.splitlines() if l.startswith("VIOLATION property=")]
-        status = "caught" if (p.returncode == 1 and hit) else "MISSED (rc=%d)" % p.returncode
-        if status != "caught":
-            ok = False
-        print("seeded %-55s %s (%d signatures)" % (name, status, len(hit)))
-        sys.stdout.flush()
+        jobs.append((name, d, prop))
+    par = int(os.environ.get("VERIF_SELFTEST_PAR", "3"))
+    env = dict(os.environ)
+    env.setdefault("VERIF_WORKERS", str(max(2, 16 // par)))
+
+    def one(job):
+        name, d, prop = job
+        return subprocess.run([os.path.join(E.VERIF, "tools", "with_mutant.sh"), os.path.join(d, "patch.diff"),
+                               os.path.join(E.VERIF, "vcheck"), prop, "quick"], capture_output=True, text=True,
+                              timeout=7200, env=env)
+    import concurrent.futures as cf
+    with cf.ThreadPoolExecutor(max_workers=par) as ex:
+        for (name, d, prop), p in zip(jobs, ex.map(one, jobs)):
+            hit = [l for l in p.stdout.splitlines() if l.startswith("VIOLATION property=")]
+            status = "caught" if (p.returncode == 1 and hit) else "MISSED (rc=%d)" % p.returncode
+            if status != "caught":
+                ok = False
+            print("seeded %-55s %-6s %s (%d signatures)" % (name, prop, status, len(hit)))
+            sys.stdout.flush()
     return 0 if ok else 1
 
 
